@@ -16,17 +16,28 @@ from vlib import Verdict, run_tlc, vh, read_ndjson, write_ndjson, sample
 BLOCKS = ["plain", "if", "while", "for", "ifelse"]
 
 
+SUB = "template Sub() {\n  signal input in[4];\n  signal output out[4];\n  for (var i = 0; i < 4; i++) {\n    out[i] <== in[i];\n  }\n}\n"
+# the syntactic positions in which a use of a variable can stand (the last two only in templates)
+USE_FORMS = ["{n} = {n} + {lit};", "arr[{n}] = {lit};", "tmp = arr[{n}] + {lit};", "assert({n} != {lit});", "log({n}, {lit});",
+             "tmp = ({n} == {lit}) ? {n} : {lit};", "tmp = g({n}, {lit});", "c.in[{n}] <== {lit};", "c.out[{n}] === {lit};"]
+
+
 def render(case, k):
+    """-> source of ONE definition named f: a function, or (every third tree) a template so that uses can also stand in the
+    index of a component port"""
     toks = case["toks"]
+    template = (k % 3 == 2)
+    nforms = len(USE_FORMS) if template else len(USE_FORMS) - 2
     params = [t["n"] for t in toks if t["k"] == "P"] + ["p9"]
     out, ind = [], 1
+    out.append("  var arr[4] = [0, 0, 0, 0];\n  var tmp = 0;" + ("\n  component c = Sub();" if template else ""))
     for i, t in enumerate(toks, start=1):
         pad = "  " * ind
         lit = 100 + i
         if t["k"] == "D":
             out.append("%svar %s = %d;" % (pad, t["n"], lit))
         elif t["k"] == "U":
-            out.append("%s%s = %s + %d;" % (pad, t["n"], t["n"], lit))
+            out.append(pad + USE_FORMS[(k // 3 + i) % nforms].format(n=t["n"], lit=lit))
         elif t["k"] == "F":
             # the header declares, tests and steps the variable; the step is an occurrence of its own (literal 2000 + position)
             out.append("%sfor (var %s = %d; %s < %d; %s += %d) {" % (pad, t["n"], lit, t["n"], lit + 1000, t["n"], lit + 2000))
@@ -49,23 +60,54 @@ def render(case, k):
                 break
             ind -= 1
             out.append("  " * ind + "}")
+    if template:
+        return "template f(%s) {\n%s\n}\n" % (", ".join(params), "\n".join(out))
     return "function f(%s) {\n%s\n  return p9;\n}\n" % (", ".join(params), "\n".join(out))
 
 
+TRACKED = {"x", "y", "x_0", "x_1"}
+
+
+def walk_expr(e, lits, names):
+    if not isinstance(e, dict):
+        return
+    k = e.get("k")
+    if k == "num":
+        try:
+            lits.append(int(e["num"]))
+        except ValueError:
+            pass
+    if k in ("var", "access", "update") and e["name"]["n"] in TRACKED:
+        names.add((e["name"]["n"], e["name"]["s"]))
+    for f in ("l", "r", "c", "t", "f"):
+        if isinstance(e.get(f), dict):
+            walk_expr(e[f], lits, names)
+    for a in e.get("args", []) or []:
+        walk_expr(a, lits, names)
+    for a in e.get("acc", []) or []:
+        if isinstance(a, dict) and "i" in a:
+            walk_expr(a["i"], lits, names)
+
+
 def occurrences(cfg):
-    """literal -> list of (name, suffix) seen at that occurrence (declaration target / read / written)."""
+    """literal -> set of (name, suffix) of the tracked variables that occur (read or written, in whatever syntactic position)
+    in the statement carrying that literal."""
     occ = collections.defaultdict(set)
     for b in cfg["blocks"]:
         for s in b["stmts"]:
-            if s["k"] != "sub" or s["rhe"]["k"] == "phi":
+            if s["k"] == "sub" and s["rhe"]["k"] == "phi":
                 continue
-            r = s["rhe"]
-            if r["k"] == "num" and 100 < int(r["num"]) < 1000:
-                occ[int(r["num"])].add((s["var"]["n"], s["var"]["s"]))
-            elif r["k"] == "infix" and r["r"]["k"] == "num" and (100 < int(r["r"]["num"]) < 1000 or 2100 < int(r["r"]["num"]) < 3000) and r["l"]["k"] == "var":
-                lit = int(r["r"]["num"])
-                occ[lit].add((s["var"]["n"], s["var"]["s"]))
-                occ[lit].add((r["l"]["name"]["n"], r["l"]["name"]["s"]))
+            lits, names = [], set()
+            if s["k"] == "sub" and s["var"]["n"] in TRACKED:
+                names.add((s["var"]["n"], s["var"]["s"]))
+            for f in ("rhe", "cond", "value", "lhe", "arg"):
+                if isinstance(s.get(f), dict):
+                    walk_expr(s[f], lits, names)
+            for a in s.get("args", []) or []:
+                walk_expr(a, lits, names)
+            for lit in lits:
+                if 100 < lit < 1000 or 2100 < lit < 3000:
+                    occ[lit] |= names
     return occ
 
 
@@ -129,7 +171,7 @@ def run(tier):
     vh(["irdump", pin, pout], timeout=3000)
     # reports with labels need real files: the production oracle
     oin, oout = os.path.join(wd, "or.in"), os.path.join(wd, "or.out")
-    write_ndjson(oin, [{"id": i, "files": [{"path": "in.circom", "named": True, "text": "pragma circom 2.0.0;\n" + s}]} for i, s in enumerate(srcs)])
+    write_ndjson(oin, [{"id": i, "files": [{"path": "in.circom", "named": True, "text": "pragma circom 2.0.0;\n" + SUB + "function g(a, b) {\n  return a + b;\n}\n" + s}]} for i, s in enumerate(srcs)])
     vh(["produce", oin, oout], timeout=3000)
     nshadow = 0
     for i, (c, doc, od) in enumerate(zip(cases, read_ndjson(pout), read_ndjson(oout))):
@@ -202,7 +244,7 @@ def run(tier):
     # repeated parameter names -> CS0002, and display of shadowing warnings end to end
     extra = [("function f(x, x) {\n  return x;\n}\n", "CS0002"), ("template T(a, b, a) {\n  signal input s;\n  signal output o;\n  o <== s;\n}\n", "CS0002")]
     pick = [i for i in rnd.sample(range(len(cases)), min(len(cases), 60 if tier == "quick" else 600)) if cases[i]["shadows"]]
-    jobs = [("pragma circom 2.0.0;\n" + s, code, 1) for s, code in extra] + [("pragma circom 2.0.0;\n" + srcs[i], "CS0001", len(cases[i]["shadows"])) for i in pick]
+    jobs = [("pragma circom 2.0.0;\n" + s, code, 1) for s, code in extra] + [("pragma circom 2.0.0;\n" + SUB + "function g(a, b) {\n  return a + b;\n}\n" + srcs[i], "CS0001", len(cases[i]["shadows"])) for i in pick]
 
     def one(j):
         text, code, n = jobs[j]
@@ -213,7 +255,7 @@ def run(tier):
             v.violation("scope:%s not displayed" % code, {"source": text, "expected": n, "displayed": cnt, "stdout": r["stdout"][-1500:]})
     cov = {"states": states + l1o.distinct, "transitions": gens + l1o.generated, "traces_validated_against_impl": len(cases) + len(jobs),
            "exhaustive": total == len(cases), "evaluations": len(cases) + len(jobs), "distinct_nontrivial": sum(1 for c in cases if c["shadows"]),
-           "rule": "every scope tree Scopes.tla derives within the step bounds %s (optional parameter x; declarations and read-write uses; "
+           "rule": "every scope tree Scopes.tla derives within the step bounds %s (optional parameter x; declarations; uses in nine syntactic positions: read-write, array index on either side, assert, log, ternary, call argument, index of a component port; functions and templates; "
                    "nested and sibling blocks rendered as plain blocks, if, if/else, while and for bodies): %d trees%s, %d shadowing pairs "
                    "expected in total; non-trivial = trees with at least one shadowing declaration" %
                    (plans, len(cases), "" if total == len(cases) else " (sampled from %d)" % total, nshadow),
